@@ -17,17 +17,17 @@ CLAIMED = {
          "exactly the in-order filter / the uniquely determined producer fork / the key-wise merge, or yields the ids that break it.",
          "Trusted: go/ssa, symgo, z3. Outside: static AST resolution, JSON projection, resolveMerge/resolveSplit and getParts, "
          "top-level _outs, map-key forks and more than two fork dimensions.",
-         "DESIGN.md §4 C01"),
+         "DESIGN.md §4 (C01)"),
  "C02": ("One step of the real scheduler code (Fork.step/stepStage/doSplit/doChunks/doJoin/doComplete, Chunk.step, Node.step/getState, "
          "runJob) from an arbitrary sentinel-file state: every combination of _errors/_assert/_complete/_disabled/_log/_jobinfo/_stage_defs on "
          "split, chunks, join and fork metadata (= every instant of every schedule) is symbolic under the phase invariant; a recording fake job "
          "manager is the observer. Asserted: chunk jobs only after split complete, join only after all chunks complete, a node submits only "
          "when running and enters running only when producer, disabling source and every enclosing preflight are done.",
-         "Trusted: go/ssa, symgo, z3; the OS-boundary and AST/JSON stubs listed in the evidence (each returns an arbitrary outcome within its contract); the assumed representation invariant PhaseInv; the hand-built graph (one fork per node, <=2 chunks, P{PRE,A,C,Q{B}}). Outside: prenode construction from bindings, dynamic fork expansion, real processes and job-manager queues.", "DESIGN.md §4 C02, appendix A"),
+         "Trusted: go/ssa, symgo, z3; the OS-boundary and AST/JSON stubs listed in the evidence (each returns an arbitrary outcome within its contract); the assumed representation invariant PhaseInv; the hand-built graph (one fork per node, <=2 chunks, P{PRE,A,C,Q{B}}). Outside: prenode construction from bindings, dynamic fork expansion, real processes and job-manager queues.", "DESIGN.md §4 (C02)"),
  "C03": ("Same harness family as C02, plus two consecutive steps with arbitrary job progress and an optional restart in between: no metadata is "
          "handed to execJob twice, a job is submitted only from its empty state and then carries _jobinfo, exactly the chunks _stage_defs lists are "
          "created, a disabled fork submits nothing and is marked disabled.",
-         "Trusted: go/ssa, symgo, z3; the OS-boundary and AST/JSON stubs listed in the evidence (each returns an arbitrary outcome within its contract); the assumed representation invariant PhaseInv; the hand-built graph (one fork per node, <=2 chunks, P{PRE,A,C,Q{B}}). Outside: prenode construction from bindings, dynamic fork expansion, real processes and job-manager queues. Also outside: static fork enumeration (MakeForkIds) and compile-time disabled pruning.", "DESIGN.md §4 C03, appendix A"),
+         "Trusted: go/ssa, symgo, z3; the OS-boundary and AST/JSON stubs listed in the evidence (each returns an arbitrary outcome within its contract); the assumed representation invariant PhaseInv; the hand-built graph (one fork per node, <=2 chunks, P{PRE,A,C,Q{B}}). Outside: prenode construction from bindings, dynamic fork expansion, real processes and job-manager queues. Also outside: static fork enumeration (MakeForkIds) and compile-time disabled pruning.", "DESIGN.md §4 (C03)"),
  "C04": ("Decision and bookkeeping of volatile data removal from the real code: partialVdrKill from arbitrary coarse states of the "
          "producer fork and two consumers with arbitrary keep-alive membership (incl. the top-level/retain holder), and the real "
          "vdrKillSome/vdrKill with os.RemoveAll recorded over a symbolic file cache (directory, file inside it, sibling; arbitrary "
@@ -36,14 +36,14 @@ CLAIMED = {
          "filePostNodes stay consistent; non-volatile stages lose only chunk files of splitting stages; anyOverlap/pathIsInside string kernels.",
          "Trusted: go/ssa, symgo, z3/cvc5, the stubs and fixture listed in the evidence. Outside: on-disk names and symlinks, JSON-derived file "
          "lists, construction of the keep-alive relation from the AST, the real goroutine schedule, the stage contract.",
-         "DESIGN.md §4 C04"),
+         "DESIGN.md §4 (C04)"),
  "C14": ("Partial (accounting and phases): same harnesses as C04. Asserted: the kill report's size and count grow by exactly the cached sizes/"
          "counts of the removed paths (collapsed children included, on top of an existing partial report), every reported path was passed to "
          "RemoveAll and lies inside the fork directory, everything nothing keeps alive is reclaimed, split/chunk/join temp cleaning runs in the "
          "phases named and never twice (restart between partial and final).",
          "Trusted: as C04. Outside: what survives on disk, the temp-directory walks themselves (clean*Temp internals), event time-lines, the "
          "pipestance-level merge.",
-         "DESIGN.md §4 C14"),
+         "DESIGN.md §4 (C14)"),
  "C05": ("Partial (restart decision kernel): crash points are symbolic sentinel-file sets closed under the order a job writes its files. "
          "The real checkedReset/restartLocal/restartQueuedLocal/uncheckedReset/removeAll run on them (process liveness, recorded pid and "
          "_jobinfo readability arbitrary): a job with recorded completion is never reset, exactly failed / queued / dead-process jobs are, and "
@@ -51,12 +51,12 @@ CLAIMED = {
          "Lock refuses an existing _lock without side effects and a handled signal removes it.",
          "Trusted: go/ssa, symgo, z3, the OS-boundary stubs listed in the evidence, the crash-consistency assumption. Outside: equality of final "
          "outputs with an uninterrupted run, RestoreForks end to end, VDR/post-processing interruption, the real signal machinery, SIGKILL windows.",
-         "DESIGN.md §4 C05"),
+         "DESIGN.md §4 (C05)"),
  "C06": ("Partial (scheduler decision kernel): faults are symbolic sentinel files and stub verdicts — _errors/_assert in any combination, "
          "unreadable or invalid outputs, unparseable _stage_defs. Asserted: failure precedence, a failed job fails its fork and node, a failed "
          "node stays on the frontier and the pipestance state is failed never complete, consumers wait and submit nothing, independent stages "
          "are unaffected, invalid outputs write _errors and never _complete.",
-         "Trusted: go/ssa, symgo, z3; the OS-boundary and AST/JSON stubs listed in the evidence (each returns an arbitrary outcome within its contract); the assumed representation invariant PhaseInv; the hand-built graph (one fork per node, <=2 chunks, P{PRE,A,C,Q{B}}). Outside: prenode construction from bindings, dynamic fork expansion, real processes and job-manager queues. Also outside: how a process failure becomes _errors, retries, mrp exit code, restart after the fault is removed.", "DESIGN.md §4 C06, appendix A"),
+         "Trusted: go/ssa, symgo, z3; the OS-boundary and AST/JSON stubs listed in the evidence (each returns an arbitrary outcome within its contract); the assumed representation invariant PhaseInv; the hand-built graph (one fork per node, <=2 chunks, P{PRE,A,C,Q{B}}). Outside: prenode construction from bindings, dynamic fork expansion, real processes and job-manager queues. Also outside: how a process failure becomes _errors, retries, mrp exit code, restart after the fault is removed.", "DESIGN.md §4 (C06)"),
  "C08": ("Every byte string up to 3 (thorough 4) bytes is run symbolically through the real lexer step, the scanner loop, and the whole "
          "expression parser (yacc tables + grammar actions); 19/20-digit integer tokens and 8-hex-digit \\U escapes get their own harnesses. "
          "An uncaught Go panic on any path is a violation with concrete bytes, replayed natively. Partial: lexer contract and "
@@ -64,33 +64,33 @@ CLAIMED = {
          "Trusted: go/ssa, symgo, regex VM model, z3 / cvc5 --solve-bv-as-int (integer-token harness). The numeric value of a "
          "symbolic float literal is cut to an opaque value (float range errors outside). Outside: long inputs, include "
          "resolution, compile passes, time/memory proportionality.",
-         "DESIGN.md §4 C08"),
+         "DESIGN.md §4 (C08)"),
  "C09": ("String values of up to 3 (thorough 4) arbitrary bytes, source literals built from two atoms (raw byte, simple/octal/hex "
          "escape), src commands, @include paths and integers below 10^3 (10^4) are symbolic; the real quoteString, lexer, unquote, "
          "yacc parser and formatter run on them and the solver shows the formatted text lexes/parses back to the same value and is a "
          "fixed point. Partial: literal, src/include and integer kernels only.",
          "Trusted: go/ssa, symgo, regex VM model, z3. Outside: floats, comments, call reordering, whole-file idempotence, "
          "include-expanded rendering, wider integers. One known finding (non-UTF-8 literal bytes) is reported as KNOWN-FINDING.",
-         "DESIGN.md §4 C09"),
+         "DESIGN.md §4 (C09)"),
  "C15": ("Partial, clause by clause: for modifiers, bindings/expressions, calls, stages and pipelines two instances with the same shape "
          "and independent symbolic leaves (names, values, kinds, flags, types, dims, out names) are compared by the real EquivalentTo/"
          "Equals/equal code; the solver shows the verdict equals a leaf-wise oracle written from the doc comments in both directions "
          "(refused iff a semantic leaf differs; cosmetic leaves ignored).",
          "Trusted: go/ssa, symgo, z3, the oracles. AST shapes restricted to what the compiler produces. Outside: floats, map/split/merge "
          "expressions, _invocation byte comparison, the pipestance lock.",
-         "DESIGN.md §4 C15"),
+         "DESIGN.md §4 (C15)"),
  "C16": ("StringExp values of up to 3 (4) arbitrary bytes, two-key typed maps with arbitrary 1-2 byte keys under every Go map iteration "
          "order, booleans/null/empty collections and integers below 10^3 (10^4) are encoded by the real EncodeJSON/MarshalJSON; an "
          "RFC 8259 string decoder in the harness is the oracle. Partial: scalar and collection encoders (call text -> JSON direction).",
          "Trusted: go/ssa, symgo, z3, the 60-line JSON string decoder. Outside: JSON -> expression (encoding/json), floats, "
          "BuildCallSource end to end, per-fork invocation files.",
-         "DESIGN.md §4 C16"),
+         "DESIGN.md §4 (C16)"),
  "C10": ("Partial (order-independence of the emitters): every range over a Go map in the executed code picks an arbitrary permutation "
          "(engine-level nondeterminism); map expressions, binding maps, argument maps, metadata listings and job-script environment blocks with "
          "2-3 distinct symbolic keys are emitted twice and the solver shows the two outputs are byte-identical on every pair of orders.",
          "Trusted: go/ssa, symgo (map-order model), z3. Outside: whole-pipeline Format/MakeCallGraph identity, error-message order, fork id "
          "enumeration, cross-process repetition.",
-         "DESIGN.md §4 C10"),
+         "DESIGN.md §4 (C10)"),
  "C11": ("Map keys of up to 3 (thorough 4) arbitrary bytes, array indices < 1000 and every journal file name built from "
          "(node, fork, chunk?, 10-hex uniquifier?, prefix, state) are symbolic; the real makeKeySafe/url.PathEscape, forkString, "
          "ForkIdString, encodeJournalName, parseRunFilename (regex run by a symbolic Pike VM over Go's own compiled program), "
@@ -98,7 +98,7 @@ CLAIMED = {
          "writer; counterexamples replay natively. Bounded.",
          "Trusted: go/ssa lowering, symgo, the regex VM and Replacer models (validated by native replay of witnesses), z3. "
          "Outside: indices >= 1000, nested fork ids in routing, file-name length limits, directory listing.",
-         "DESIGN.md §4 C11"),
+         "DESIGN.md §4 (C11)"),
  "C12": ("One-step induction on the real ResourceSemaphore and MaxJobsSemaphore code: the pre-state (capacities, reservation, a queue of "
          "k<=3 (5) waiters with ghost channels; 3 jobs with arbitrary membership, metadata files and Limit) is symbolic subject to the "
          "representation invariant, one operation with arbitrary arguments runs, and the solver shows invariant, FIFO prefix grants, exact "
@@ -107,21 +107,21 @@ CLAIMED = {
          "Trusted: go/ssa, symgo, ghost models of sync.Mutex/Cond/channels, cvc5 --solve-bv-as-int and z3. Caller contracts assumed "
          "(amounts>=0, Release<=reserved, UpdateSize<=maxSize). Outside: clamping in GetSystemReqs (floating point), OS liveness, "
          "remote manager goroutines.",
-         "DESIGN.md §4 C12"),
+         "DESIGN.md §4 (C12)"),
  "C19": ("Partial (reference rewriting of rename edits): the real updateRef/updateRefInExp on references with symbolic ids, output paths and "
          "old/new names, and RenameCallable with its edits applied to a hand-built pipeline AST (argument, nested-output, disabled, return and "
          "retain references; alias collision; reverse rename). The solver shows every reference that named the renamed call still names it, "
          "nothing else changes, and X->Y->X restores the names.",
          "Trusted: go/ssa, symgo, z3, the fixed AST shape. Outside: re-formatting and recompiling, call-graph equality, removal edits, "
          "input/output renames across files.",
-         "DESIGN.md §4 C19"),
+         "DESIGN.md §4 (C19)"),
  "C18": ("Every byte string up to the stated length (quick 4, thorough 5 bytes; formatArgs 2+1+1 / 2+2+1) is pushed "
          "symbolically through the real appendShellSafeQuote/shellSafeQuote/formatArgs and a POSIX double-quote "
          "reference de-quoter; the solver shows on every path that sh recovers the original bytes, or returns the bytes "
          "that break it, which are replayed natively (go test -overlay). Bounded, not a proof.",
          "Trusted: go/ssa lowering, symgo interpreter and term simplifier, z3, the 40-line POSIX de-quoter oracle. "
          "Outside: job script templates, Replacer placeholder substitution, non-POSIX shells, NUL bytes.",
-         "DESIGN.md §4 C18"),
+         "DESIGN.md §4 (C18)"),
 }
 
 NOT_APPLICABLE = {
